@@ -269,3 +269,43 @@ def run_keytiming(prog):
     if not ok:
         res.viol("consumer/can_block-reads-bound", g.loc, "can_block_update_idle_waiting no longer consults switch_max_key_timing")
     return res
+
+
+STATE_VARIANT_EXEMPT = {
+    "FakeKey": "a key held by a running macro: exists only while that macro is in active_sequences, which the predicate reads",
+    "Tombstone": "replaced and removed within the tick that creates it",
+}
+
+
+def run_states(prog):
+    """R-IDLE-STATES: the state vector holds entries that the tick path itself creates and later retires (the custom-action
+    steps of a running macro). While such an entry exists kanata still owes output, so the idle predicate must test for
+    every State variant that the tick path builds."""
+    from kq.analysis import discr_switches
+    STATE = "kanata_keyberon::layout::State"
+    res = RuleResult("R-IDLE-STATES", "the idle predicate tests every transient state kind that the tick path creates", floor=2)
+    built = {}
+    for nm in ("process_sequences", "process_sequence_custom"):
+        g = prog.fn("kanata_keyberon::layout::Layout::" + nm)
+        res.fn(g)
+        for h in [g] + prog.closures_of(g):
+            for bi, si, st in h.all_rvalues():
+                rv = st["rv"]
+                if rv["k"] == "agg" and rv.get("adt") == STATE:
+                    built.setdefault(rv["v"], "%s:%s" % (h.file, st.get("ln")))
+    f = prog.fn(K + "is_idle")
+    tested = set()
+    for g in [f] + prog.closures_of(f):
+        for sw in discr_switches(prog, g, STATE):
+            tested |= set(sw.arms)
+    for v, where in sorted(built.items()):
+        ok = v in tested or v in STATE_VARIANT_EXEMPT
+        res.inst("state/" + v, tested=v in tested, exempt=STATE_VARIANT_EXEMPT.get(v))
+        res.oblige(ok)
+        if not ok:
+            res.viol("state/" + v, where,
+                     "the tick path creates State::%s entries but is_idle does not look for them: the loop may block while a "
+                     "macro's custom action still has to be released" % v)
+    if not built:
+        res.viol("anchors", "keyberon/src/layout.rs", "process_sequences / process_sequence_custom build no State entries any more")
+    return res
